@@ -7,12 +7,15 @@ import (
 	"math/big"
 	"net"
 	"net/http"
+	"net/url"
+	"os"
 	"reflect"
 	"strings"
 	"time"
 
 	z "github.com/Oudwins/zog"
 	"github.com/Oudwins/zog/conf"
+	"github.com/Oudwins/zog/zenv"
 	"github.com/Oudwins/zog/zhttp"
 
 	"zogverif/internal/core"
@@ -286,8 +289,63 @@ func c03JSONRequest(c *core.Ctx) bool {
 	return true
 }
 
+// c03FlatOptionalStruct: a flat source (form, query, environment) has no entry for an optional nested struct: its pointer stays nil
+// (absent optional inputs leave their destination untouched), whatever else the source carries; the other fields are read.
+func c03FlatOptionalStruct(c *core.Ctx) bool {
+	type Addr struct {
+		Street string `form:"street" query:"street" env:"C03_STREET"`
+		Zip    int    `form:"zip" query:"zip" env:"C03_ZIP"`
+	}
+	type dst struct {
+		Name string `form:"name" query:"name" env:"C03_NAME"`
+		Addr *Addr  `form:"addr" query:"addr" env:"C03_ADDR"`
+	}
+	sch := z.Struct(z.Schema{"name": z.String(), "addr": z.Ptr(z.Struct(z.Schema{"street": z.String(), "zip": z.Int()}))})
+	name := gen.Word(c.R)
+	withInner := c.R.Bool()
+	vals := url.Values{"name": {name}}
+	if withInner {
+		vals.Set("street", "Main")
+		vals.Set("zip", "12345")
+	}
+	for _, front := range []string{"form", "query", "env"} {
+		var d dst
+		var issues z.ZogIssueMap
+		switch front {
+		case "form":
+			r, _ := http.NewRequest("POST", "/x", strings.NewReader(vals.Encode()))
+			r.Header.Set("Content-Type", "application/x-www-form-urlencoded")
+			issues = sch.Parse(zhttp.Request(r), &d)
+		case "query":
+			r, _ := http.NewRequest("GET", "/x?"+vals.Encode(), nil)
+			issues = sch.Parse(zhttp.Request(r), &d)
+		default:
+			os.Setenv("C03_NAME", name)
+			if withInner {
+				os.Setenv("C03_STREET", "Main")
+				os.Setenv("C03_ZIP", "12345")
+			}
+			issues = sch.Parse(zenv.NewDataProvider(), &d)
+			os.Unsetenv("C03_NAME")
+			os.Unsetenv("C03_STREET")
+			os.Unsetenv("C03_ZIP")
+		}
+		c.Eval(1)
+		if issues != nil || d.Name != strings.TrimSpace(name) || d.Addr != nil {
+			c.Violation("destination-is-not-documented-coercion|optional-nested-struct-from-a-flat-source", map[string]any{"front_end": front, "parameters": vals.Encode(),
+				"schema": "{name: String(), addr: Ptr(Struct{street: String(), zip: Int()})}", "destination": fmt.Sprintf("Name=%q Addr=%+v", d.Name, d.Addr), "issues": fmt.Sprint(z.Issues.SanitizeMap(issues))})
+			return false
+		}
+	}
+	c.Count("flat_optional_struct_parses", 3)
+	return true
+}
+
 func c03Random(c *core.Ctx) {
 	if c.Case%50 == 1 && !c03JSONRequest(c) {
+		return
+	}
+	if c.Case%50 == 2 && !c03FlatOptionalStruct(c) {
 		return
 	}
 	if c.Case%100 == 0 {
